@@ -152,6 +152,17 @@ pub(crate) static RECORD_ANC: SchemaNode<'static> = SchemaNode::Record(Record {
 	per_name_lookup: empty_map(),
 });
 
+// ---- record R { a: long, b: ["long","null"] }  (omittable union field LAST: end() without any buffer)
+static FIELDS_AB: [RecordField<'static>; 2] = [
+	RecordField { name: const_string(b"a"), schema: NodeRef::from_static(&N_LONG) },
+	RecordField { name: const_string(b"b"), schema: NodeRef::from_static(&UNION_LONG_NULL) },
+];
+pub(crate) static RECORD_AB: SchemaNode<'static> = SchemaNode::Record(Record {
+	fields: const_vec(&FIELDS_AB),
+	name: anon_name(),
+	per_name_lookup: empty_map(),
+});
+
 pub(crate) static ARRAY_OF_LONG: SchemaNode<'static> = SchemaNode::Array(NodeRef::from_static(&N_LONG));
 
 // ---- record R3 { a: long, b: long, c: long }
